@@ -19,7 +19,7 @@ RULE = (
     "Non-trivial = at least one fault, forged datagram or concurrent neighbour affected the history; distinct = hash of the sequence of (event kind, actor, message class) of the wire history"
 )
 ASSUMPTIONS = ["default TransportTuning (ACK_TIMEOUT 2, MAX_RETRANSMIT 4) for all requests", "forged tokens are only taken from datagrams already seen on the wire"]
-REQUIRED_MONITORS = {"request_outcome": 500, "result_is_first_matching": 300, "unmatched_con_rst": 50, "matched_con_ack": 30, "token_uniqueness": 100, "forged_wrong_source_not_delivered": 50, "failure_explained": 100}
+REQUIRED_MONITORS = {"request_outcome": 500, "result_is_first_matching": 300, "unmatched_con_rst": 50, "matched_con_ack": 30, "token_uniqueness": 100, "forged_wrong_source_not_delivered": 50, "failure_explained": 100, "token_boundary_crossed": 20}
 
 SERVERS = [("10.0.0.1", 5683), ("10.0.0.1", 5684), ("10.0.0.3", 5683), ("10.0.0.4", 7777)]
 BEHAVIOURS = ["piggy", "piggy", "sep-con", "sep-non", "late", "never", "rst", "icmp"]
@@ -54,7 +54,18 @@ def gen(r):
         for q in reqs:
             if r.random() < 0.3:
                 q["srv"] = unreach
-    return {"servers": servers, "reqs": reqs, "policy": policy, "forged": forged, "unreach": unreach, "unreach_errno": r.choice([101, 1, 22]), "shutdown_at": t + r.choice([20.0, 120.0, 120.0])}
+    pin = None
+    if r.random() < 0.12:
+        # token counter pinned to a legal start value near a byte-length boundary, one long-lived request, then many
+        # short ones: tokens of requests outstanding at the same time must stay pairwise different across the boundary
+        pin = r.choice([0, 0, 0xFE, 0xFF, 0xFFFE, 2**64 - 3])
+        servers = servers[:2]
+        unreach = None
+        reqs = [{"i": 0, "t": 0.0, "srv": 0, "type": "CON", "api": "raw", "beh": "never-acked", "delay": 0.0}]
+        for i in range(1, 300):
+            reqs.append({"i": i, "t": 0.01 * i, "srv": 0, "type": "NON" if i % 7 == 0 else "CON", "api": "raw", "beh": "piggy", "delay": 0.0})
+        policy, forged, t = None, [], 3.0
+    return {"servers": servers, "reqs": reqs, "policy": policy, "forged": forged, "unreach": unreach, "pin": pin, "unreach_errno": r.choice([101, 1, 22]), "shutdown_at": t + r.choice([20.0, 120.0, 120.0])}
 
 
 def run_history(h, seed, rep, case):
@@ -91,7 +102,9 @@ def run_history(h, seed, rep, case):
                     return
                 loop.call_later(d, lambda: peer.send(src, rc.Msg(r.choice([rc.NON, rc.CON]) if beh == "sep-con" else rc.NON, rc.c(2, 5), peer.next_mid(), m.token, (), stamp(tag))))
                 return
-            if beh == "piggy":
+            if beh == "never-acked":
+                peer.send(src, rc.Msg(rc.ACK, 0, m.mid, b"", (), b""))
+            elif beh == "piggy":
                 loop.call_later(d, lambda: peer.send(src, rc.Msg(rc.ACK, rc.c(2, 5), m.mid, m.token, (), stamp(tag))))
             elif beh in ("sep-con", "sep-non"):
                 loop.call_later(min(d, 0.3), lambda: peer.send(src, rc.Msg(rc.ACK, 0, m.mid, b"", (), b"")))
@@ -130,6 +143,12 @@ def run_history(h, seed, rep, case):
             return orig_request(pipe)
 
         tman.request = request_wrapper
+        if h.get("pin") is not None:
+            if hasattr(tman, "_token"):
+                tman._token = h["pin"]
+                box["pinned"] = True
+            else:
+                box["pinned"] = False
 
         def submit(spec):
             ip, port = h["servers"][spec["srv"]]
@@ -402,6 +421,11 @@ def judge(box, h, res, rep, case):
         rep.violation("loop-exception/" + str(res.loop_exceptions[0].get("exc_type")), "an exception reached the event loop", wit(loop=res.loop_exceptions[:2]), case)
     sig = sig_hash([(e.kind, e.src == C, e.msg.type if e.msg else None, (e.msg.code >> 5) if e.msg else None, e.note) for e in net.log][:400])
     rep.case(sig, nontrivial=nontrivial)
+    if h.get("pin") is not None:
+        if box.get("pinned"):
+            rep.monitor("token_boundary_crossed")
+        else:
+            rep.count("token_pin_unavailable")
     rep.count("requests", len(recs))
     rep.count("forged", len(h["forged"]))
     for x in recs:
